@@ -4,6 +4,7 @@ import RV.C16.LemCsv
 import RV.C16.LemLazy
 import RV.C16.LemMulti
 import RV.C16.LemTextJson
+import RV.C16.LemTextCsv
 /-
   C16 — helper lemmas, split by format:
     LemJson    binding dicts vs aligned rows, `parseJsonTerm ∘ termToJSON`
@@ -16,5 +17,6 @@ import RV.C16.LemTextJson
     LemCsv     CSV fields
     LemLazy    the lazily evaluated Result: materialised ++ pending is invariant
     LemTextJson  (round g) JSON string tokens: `scanstring` undoes every RFC 8259 spelling
+    LemTextCsv   (round g) CSV text: the `csv.reader` state machine undoes `csv.writer` and every RFC 4180 rendering
     LemMulti   several live iterators over one Result: the same invariant; what the generator-reading iterators hand out
 -/
